@@ -14,7 +14,7 @@ def run_batches(scenarios, exes, workdir, batch=40, module="CatTrace", keep=Fals
         byk.setdefault(s.qcap, []).append(s)
 
     def weight(s):
-        return 5 + sum(8 if l.startswith("roundtrip") else 3 if l.startswith("settle") else 1 for l in s.lines)
+        return 5 + sum(40 if l.startswith("roundtrip") else 3 if l.startswith("settle") else 1 for l in s.lines)
 
     total = sum(weight(s) for s in scenarios) or 1
     target = max(total / (2.0 * NCPU), 60)
